@@ -143,6 +143,23 @@ ADDENDA2 = {
     "C18": "Rounds 9-10: a static table with the energy file's volume count and end volumes and other volumes in between.",
     "C19": "Rounds 9-10: pressure steps with three decimals; a 13 x 482 table for extract-geotherm.",
 }
+ADDENDA3 = {
+    "C03": "Round 11: pseudo-cubic strain fields, keys with numpy-integer fields as the package hands them out, logger at DEBUG.",
+    "C06": "Round 11: overshooting grids listed from the top down; a listed component of 1e-5 GPa.",
+    "C07": "Round 11: constants under their four-index attribute names; a 33-point volume grid.",
+    "C09": "Round 11: tables listing all 21 components; redundant components disagreeing below the refusal threshold (relation clause only).",
+    "C10": "Round 11: the 21 keys carry 21 different hashes.",
+    "C11": "Round 11: q-point weights of all sorts (zero among them) do not enter the interpolation.",
+    "C12": "Round 11: symmetry flags on sufficient proper subsets; the documented default order left to the packaged defaults for every interpolator on the fewest volumes.",
+    "C13": "Round 11: a common weight factor of 1e-10.",
+    "C15": "Round 11: file names with braces; a component of 1e-5 GPa; `cij fill` run in-process before writing, volume labels to six decimals; a writer with rules of its own.",
+    "C16": "Round 11: enumerations are whole words; grid steps given without their sampling steps.",
+    "C18": "Round 11: energies relative to the minimum; decimal pressure grids give exactly NTV rows; tetragonal7 / trigonal7 tables in every run.",
+    "C19": "Round 11: tables and requests at negative pressures.",
+    "C20": "Round 11: masses in kilogram and electron masses; mismatch refusals under python -O; mesh-fraction q-coordinates.",
+}
+for _k, _v in ADDENDA3.items():
+    ADDENDA2[_k] = (ADDENDA2[_k] + " " + _v) if _k in ADDENDA2 else _v
 for _k, _v in ADDENDA2.items():
     ADDENDA[_k] = (ADDENDA[_k] + " " + _v) if _k in ADDENDA else _v
 
